@@ -214,14 +214,20 @@ class Agg:
 def anchor_coverage(pid, tier):
 	"""Reporting only (see mc/anchors.py): which anchored line ranges a representative in-process slice of the check executes."""
 	budget = 4 if tier == 'quick' else 20
+	import shutil
+	import tempfile
+	tmp = tempfile.mkdtemp(prefix='gverif-anchors-', dir=os.environ.get('TMPDIR') or '/dev/shm')      # whatever the cut-short slice leaves behind goes with it
 	try:
-		r = subprocess.run([sys.executable, '-m', 'mc.anchors', pid, tier, str(budget)], capture_output=True, text=True, timeout=budget * 3 + 25)
+		r = subprocess.run([sys.executable, '-m', 'mc.anchors', pid, tier, str(budget)], capture_output=True, text=True, timeout=budget * 3 + 25,
+		                   env=dict(os.environ, TMPDIR=tmp))
 		for line in r.stdout.splitlines():
 			if line.startswith('ANCHORS '):
 				return json.loads(line[8:])
 		return dict(status='unavailable', detail=(r.stderr or '')[-300:])
 	except Exception as e:
 		return dict(status='unavailable', detail=repr(e)[:300])
+	finally:
+		shutil.rmtree(tmp, ignore_errors=True)
 
 
 def load_findings():
